@@ -19,6 +19,31 @@ CHECKS = {
     note='Trusted: TLC, the LMF materialiser, sqlite. Strings are atoms. On cyclic graphs the '
          'property leaves two readings of depth / fake root open; both are admitted there only.',
     design='DESIGN.md section 4 C13'),
+ 'C14': dict(
+    engine='taxonomy',
+    category='model_checking',
+    technique='TLA+ spec WnTaxonomy/WnIC (exact rationals); TLC checks bounds/symmetry on all digraphs <=3 nodes; '
+              'recorded similarity values (floats mapped back to rationals) judged by TLC (Judge_C14)',
+    text='Each metric is an explicit set of admissible exact rationals derived from shortest-path length, '
+         'lowest common hypernyms, taxonomy depth and weights; TLC proves the bound/symmetry theorems on the '
+         'bounded model and then decides for every recorded call of path/wup/lch/res/jcn/lin on every ordered '
+         'pair of every generated graph whether the value (and the wn.Error cases) is admissible, symmetric '
+         'and maximal for identical synsets.',
+    note='Trusted: TLC, float->rational recovery in the harness (tolerance 1e-9, logarithms undone by exp), '
+         'materialiser. lin is checked with power-of-two weights only.',
+    design='DESIGN.md section 4 C14'),
+ 'C15': dict(
+    engine='taxonomy',
+    category='model_checking',
+    technique='TLA+ spec WnIC; TLC checks conservation/monotonicity on all digraphs <=3 nodes x corpora; '
+              'weights returned by wn.ic.compute judged by TLC against the model (Judge_C15)',
+    text='IcTotal/IcWeight define the weights as exact scaled integers (once per word synset and ancestor); '
+         'TLC proves Conserved, Monotone, ProbInUnit, UnknownIgnored on the bounded model and that the '
+         'per-path walk of the original code differs exactly on convergent graphs; every weight, total, '
+         'probability and information content recorded from compute() on generated graphs x corpora x '
+         'distribute x smoothing is compared by TLC.',
+    note='Trusted: TLC, float->rational recovery, materialiser. One (folded) part of speech per graph.',
+    design='DESIGN.md section 4 C15'),
 }
 
 REASON_TODO = 'check not built yet in this round (planned, see DESIGN.md section 8)'
